@@ -4,7 +4,7 @@ import json, os, shutil, subprocess, sys, time
 
 seed, prop, name = sys.argv[1], sys.argv[2], sys.argv[3]
 checks = [prop] + sys.argv[4:]
-REPO = "/repo"
+REPO = os.environ.get("SEED_REPO", "/repo")
 out = {"property": prop, "name": name, "source": seed}
 
 def sh(cmd, **kw):
@@ -27,7 +27,7 @@ try:
     out["checks"] = {}
     for c in checks:
         t = time.time()
-        r = sh(f"cd /verif && ./vcheck {c} --tier quick")
+        r = sh(f"cd /verif && ./vcheck {c} --tier quick", env=(env if REPO != "/repo" else None))
         viol = [l[:300] for l in r.stdout.splitlines() if l.startswith("VIOLATION")]
         out["checks"][c] = {"rc": r.returncode, "violations": len(viol), "first": viol[:3], "harness": [l[:300] for l in r.stderr.splitlines() if "HARNESS" in l][:3], "wall_s": round(time.time() - t, 1)}
 finally:
